@@ -65,12 +65,12 @@ def _merge(a, b):
 
 
 def _work(args):
-    name, prefixes, deadline = args
+    name, prefixes, deadline, max_paths = args
     obl = _OBLS[name]
     en = core.Engine(deadline=deadline, solver_timeout_ms=obl.solver_timeout_ms)
     out = {"name": name}
     try:
-        en.explore(obl.fn, prefixes=prefixes)
+        en.explore(obl.fn, prefixes=prefixes, max_paths=max_paths)
         out["error"] = None
     except core.Inconclusive as ex:
         out["error"] = "inconclusive: %s" % (ex,)
@@ -81,25 +81,13 @@ def _work(args):
     out["stats"] = en.stats()
     out["violations"] = en.violations
     out["samples"] = en.samples
+    out["leftover"] = en.leftover
     return out
 
 
-def _split(obl, deadline):
-    """Master: explore to increasing decision depth until the frontier has enough items."""
-    depth = 2
-    last = None
-    while True:
-        en = core.Engine(deadline=deadline, solver_timeout_ms=obl.solver_timeout_ms)
-        en.explore(obl.fn, frontier_depth=depth)
-        last = en
-        if not en.frontier or len(en.frontier) >= obl.split or depth >= 40 or not en.complete:
-            return en
-        if en.violations:
-            return en
-        depth += 2 if depth < 12 else 4
-
-
 def run_obligation(obl, pool):
+    """Dynamic work splitting: a task explores a sub-tree depth first for at most `max_paths` paths and hands the
+    unexplored sibling prefixes back; the scheduler redistributes them.  Budgets double as the frontier widens."""
     t0 = time.time()
     deadline = t0 + obl.budget_s
     res = {"name": obl.name, "desc": obl.desc, "bounds": obl.bounds, "stubs": obl.stubs,
@@ -107,40 +95,60 @@ def run_obligation(obl, pool):
     stats = {}
     violations = []
     samples = []
-    try:
-        m = _split(obl, deadline)
-    except core.Inconclusive as ex:
-        res["errors"].append("inconclusive during split: %s" % (ex,))
-        m = None
-    except BaseException as ex:
-        res["errors"].append("harness exception during split: %r\n%s" % (ex, traceback.format_exc()))
-        m = None
-    if m is not None:
-        # the master's own statistics only count completed paths (frontier cuts are re-run by workers)
-        ms = m.stats()
-        ms["cut"] -= len(m.frontier)
-        _merge(stats, ms)
-        violations.extend(m.violations)
-        samples.extend(m.samples)
-        items = m.frontier
-        if items and not m.violations:
-            # several prefixes per task keeps per-task overhead low, small chunks balance the load
-            chunk = max(1, len(items) // (NPROC * 12))
-            tasks = [(obl.name, items[i:i + chunk], deadline) for i in range(0, len(items), chunk)]
-            for out in pool.imap_unordered(_work, tasks):
+    queue = [([[]], 8)]          # (prefixes, max_paths)
+    inflight = []
+    stop = False
+    while (queue or inflight) and not stop:
+        while queue and len(inflight) < NPROC * 2:
+            prefixes, mp = queue.pop()
+            inflight.append(pool.apply_async(_work, ((obl.name, prefixes, deadline, mp),)))
+        ready = [r for r in inflight if r.ready()]
+        if not ready:
+            time.sleep(0.002)
+            continue
+        for r in ready:
+            inflight.remove(r)
+            out = r.get()
+            _merge(stats, out["stats"])
+            violations.extend(out["violations"])
+            for smp in out["samples"]:
+                if len(samples) < 64:
+                    samples.append(smp)
+            if out["error"]:
+                res["errors"].append(out["error"] + "\n" + out.get("tb", ""))
+                stop = True
+            if len(violations) >= 8:
+                stop = True
+            left = out["leftover"]
+            if left:
+                total = stats.get("paths", 0) + stats.get("cut", 0)
+                mp = 8 if total < 200 else (64 if total < 5000 else (512 if total < 100000 else 2048))
+                # shallow prefixes (bottom of the DFS stack) are the biggest sub-trees: one task each; deep ones are batched
+                left.sort(key=len)
+                nsingle = max(1, min(len(left), NPROC * 2))
+                for p_ in left[:nsingle]:
+                    queue.append(([p_], mp))
+                rest = left[nsingle:]
+                step = max(1, len(rest) // (NPROC * 2) + 1)
+                for i in range(0, len(rest), step):
+                    queue.append((rest[i:i + step], mp))
+    if queue and not stop:
+        pass
+    if queue or inflight:
+        # stopped early (violations / errors): the remaining tasks are dropped, the run is not exhaustive
+        for r in inflight:
+            try:
+                out = r.get(timeout=max(1.0, deadline - time.time() + 5))
                 _merge(stats, out["stats"])
                 violations.extend(out["violations"])
-                for s in out["samples"]:
-                    if len(samples) < 64:
-                        samples.append(s)
-                if out["error"]:
-                    res["errors"].append(out["error"] + "\n" + out.get("tb", ""))
+            except Exception:
+                pass
+        stats["complete"] = False
     res["stats"] = stats
     res["violations"] = violations
     res["samples"] = samples
     res["wall_s"] = round(time.time() - t0, 2)
     res["exhaustive"] = bool(stats.get("complete", False)) and not res["errors"]
-    # vacuity witnesses
     reached = stats.get("asserts", {})
     res["vacuous_labels"] = [l for l in obl.labels if not reached.get(l)]
     return res
